@@ -78,8 +78,7 @@ def line (cfg : Cfg) (row : List PP) : List Tok :=
 def renderLines (cfg : Cfg) (rows : List (List PP)) : List (List Tok) :=
   rows.map fun r => line cfg r ++ [Tok.sgr0]
 
-def render (cfg : Cfg) (rows : List (List PP)) : List Tok :=
-  (renderLines cfg rows).intersperse [Tok.lf] |>.flatten
+def render (cfg : Cfg) (rows : List (List PP)) : List Tok := joinLines (renderLines cfg rows)
 
 /-! ## slicing the flat pixel lists into row pairs (the `rgb_pairs` / `a_pairs` generators) -/
 
